@@ -378,15 +378,26 @@ class Driver:
         self.p.stdin.flush()
         return self.recv()
 
-    def call_many(self, reqs, chunk=2000):
+    def call_many(self, reqs):
+        """Pipelined batch: a reader thread drains replies while requests are written (no pipe deadlock)."""
+        import threading
         res = []
-        for s in range(0, len(reqs), chunk):
-            part = reqs[s:s + chunk]
-            for fid, args in part:
-                self.send(fid, args)
-            self.p.stdin.flush()
-            for _ in part:
-                res.append(self.recv())
+        err = []
+
+        def reader():
+            try:
+                for _ in reqs:
+                    res.append(self.recv())
+            except Exception as e:   # noqa
+                err.append(e)
+        th = threading.Thread(target=reader, daemon=True)
+        th.start()
+        for fid, args in reqs:
+            self.send(fid, args)
+        self.p.stdin.flush()
+        th.join()
+        if err:
+            raise err[0]
         return res
 
     def close(self):
